@@ -15,8 +15,8 @@ while true; do
       echo "=== $pre $pid/$n -> $*" >> /var/tmp/seedres/queue.log
       tools/seedtest.sh $f "$@" 2>&1 | tail -4 >> /var/tmp/seedres/queue.log
     fi
-    if [ $pre = seed2 ]; then a="2:$pid/$n"; else a="$pid/$n"; fi
-    python3 /var/tmp/confirm2.py $a >> /var/tmp/seedres/confirmq.log 2>&1
+    case $pre in seed) a="$pid/$n";; *) a="${pre#seed}:$pid/$n";; esac
+    python3 /verif/tools/seeding/confirm2.py $a >> /var/tmp/seedres/confirmq.log 2>&1
   else
     sleep 20
   fi
